@@ -12,6 +12,22 @@ CHECKS = {
          "Every (operation, width, operand pair) of the stated finite alphabet is pushed through Bitvector::*, BitvectorDomain::* and Expression::bytesize and compared with an independent P-Code reference; exhaustive for 1-byte operands, boundary-alphabet pairs for 2/4/8/16 bytes.",
          "Trusted: the reference semantics in mcx::refsem::ops (self-checked against native u8/i8 arithmetic and hand-derived golden vectors at start-up). Nothing outside the alphabet is covered.",
          "DESIGN.md §C01"),
+ "C10": (MC, "exhaustive bounded program-space enumeration (expression trees, def sequences x terminators, CFG skeletons x slot alphabets) with differential execution by an independent reference interpreter",
+         "Every expression tree up to depth 2 (plus deeper templates) through the real trivial-operation rewriter under every valuation of a value alphabet; every single-block program (def sequences x terminators x observers) and every CFG-skeleton program (slot alphabets x condition variants) through the real normalize_basic/normalize_optimize, both versions run by an independent interpreter from every initial state x call environment; traces and call/return/dead-end snapshots must agree.",
+         "Trusted: props::ir_interp + mcx::refsem::ops (independent of the repository's evaluation code). Bounded by the alphabets; loops are cut by block fuel (prefix comparison). P-Code temporaries are assumed dead across calls (a call ends the machine instruction).",
+         "DESIGN.md §C10"),
+ "C11": (MC, "exhaustive bounded enumeration of raw P-Code blocks, each executed by an independent byte-level P-Code interpreter and, after the real lifting, by an independent IR interpreter",
+         "Every single P-Code instruction over a register table with nested, top-aligned, middle and same-name-smaller sub-registers, temporaries, constants and RAM operands; all (sub-register write|load) x (cast|copy) pairs; every jump kind with register/sub-register/temporary/RAM operands; triples over a 16-letter alphabet. Final base-register bytes, load/store sequences and block exits must agree in every initial state.",
+         "Trusted: props::pcode::PMachine, props::ir_interp, mcx::refsem::ops. Little-endian register file; floating point ops uninterpreted; only lifting (normalize + into_ir_project) is judged here, IR-level optimization is C10.",
+         "DESIGN.md §C11"),
+ "C12": (MC, "exhaustive bounded enumeration of raw P-Code blocks (C11 space, unconnected and chained), typing walk after lifting and after every normalization pass",
+         "All blocks of the C11 space, batched into functions once unconnected and once chained block-to-block, are lifted and run through normalize_basic and each pass of normalize_optimize; after every stage every Def/Jmp is checked against the statement's sizing rules.",
+         "Trusted: the typing walk in c12.rs (direct transcription of the statement). Extensions accepted with target >= source size; condition and indirect-target sizes only reported.",
+         "DESIGN.md §C12"),
+ "C25": (MC, "stateless DFS over all thread schedules (no preemption bound) of a small harness running the unmodified utils/log.rs against a scheduler-controlled channel, with pthread_create/join interposition",
+         "All grant sequences of every configuration of the harness family (main as single producer; 1-2 producer threads with <=2 messages; joined or not before collection; late sender outliving collection; collect() or drop) are executed on the real log.rs source compiled against a scheduler-controlled FIFO channel; each execution is judged from the recorded gate order; deadlock/livelock are detected; determinism is asserted by replaying schedules.",
+         "Trusted: the channel model (linearizable FIFO with crossbeam's disconnect semantics; checked sequentially against the real library with real crossbeam), pthread interposition making spawn/join visible. Bounded by the harness family.",
+         "DESIGN.md §C25"),
 }
 NOT_BUILT = "check not built yet (work in progress; see DESIGN.md for the planned model-checking design)"
 NA = {}
@@ -40,7 +56,7 @@ except Exception:
     pass
 m = {
  "version": 1,
- "setup_cmd": "cd /verif/mc && CARGO_NET_OFFLINE=true cargo build --release --offline --bins",
+ "setup_cmd": "cd /verif/mc && CARGO_NET_OFFLINE=true cargo build --release --offline --workspace --bins",
  "hooks": {
    "guard": "--cfg fkie_cad_cwe_checker_verif",
    "enable": "rustflags = [\"--cfg\", \"fkie_cad_cwe_checker_verif\"] in /verif/mc/.cargo/config.toml (applies to every harness build of /repo/src/cwe_checker_lib and of the CLI)",
